@@ -662,6 +662,31 @@ func c04Violation(c *Ctx, cs *C04Case, f c04Fail, idx int, alone *c04Alone) *Vio
 		cur.Trees = append([][]*TNode(nil), cur.Trees...)
 		cur.Trees[t] = nt
 	}
+	// 5. drop pool entries no remaining operation refers to
+	{
+		tmap, bmap := map[int]int{}, map[int]int{}
+		cand := cur
+		cand.Trees, cand.Envs, cand.Tasks = nil, nil, nil
+		for _, ops := range cur.Tasks {
+			var nops []C04Op
+			for _, op := range ops {
+				if _, ok := tmap[op.T]; !ok {
+					tmap[op.T] = len(cand.Trees)
+					cand.Trees = append(cand.Trees, cur.Trees[op.T])
+				}
+				if _, ok := bmap[op.B]; !ok {
+					bmap[op.B] = len(cand.Envs)
+					cand.Envs = append(cand.Envs, cur.Envs[op.B])
+				}
+				op.T, op.B = tmap[op.T], bmap[op.B]
+				nops = append(nops, op)
+			}
+			cand.Tasks = append(cand.Tasks, nops)
+		}
+		if _, ok := test(&cand); ok {
+			cur = cand
+		}
+	}
 	cur.Sources = nil
 	for _, t := range cur.Trees {
 		cur.Sources = append(cur.Sources, Source(t))
